@@ -178,17 +178,37 @@ func c11TypeName(e ast.Expr) string {
 }
 
 // c11ElectionArgOK: is `call` an elector call `X.Coordinator(ctx, <…>.ExcludePeers(<…>.ValidCoordinators(), E))`
-func c11ElectionArgOK(call *ast.CallExpr, excl string) (isElection, ok bool) {
+func c11ElectionArgOK(call *ast.CallExpr, excl string, locals map[string]ast.Expr) (isElection, ok bool) {
 	sel, isSel := call.Fun.(*ast.SelectorExpr)
 	if !isSel || sel.Sel.Name != "Coordinator" || len(call.Args) != 2 {
 		return false, false
 	}
-	ex, isCall := call.Args[1].(*ast.CallExpr)
+	arg := call.Args[1]
+	if id, isID := arg.(*ast.Ident); isID { // a local that was assigned the candidate list
+		if r, ok := locals[id.Name]; ok {
+			arg = r
+		}
+	}
+	ex, isCall := arg.(*ast.CallExpr)
 	if !isCall || !strings.HasSuffix(Src(ex.Fun), "ExcludePeers") || len(ex.Args) != 2 {
 		return true, false
 	}
 	vc, isCall := ex.Args[0].(*ast.CallExpr)
 	return true, isCall && strings.HasSuffix(Src(vc.Fun), ".ValidCoordinators") && Src(ex.Args[1]) == excl
+}
+
+// c11Locals: the single-assignment locals `x := <expr>` / `x, err := <expr>` of a function body
+func c11Locals(body *ast.BlockStmt) map[string]ast.Expr {
+	out := map[string]ast.Expr{}
+	Walk(body, func(n ast.Node) bool {
+		if as, ok := n.(*ast.AssignStmt); ok && len(as.Rhs) == 1 && len(as.Lhs) >= 1 {
+			if id, ok := as.Lhs[0].(*ast.Ident); ok {
+				out[id.Name] = as.Rhs[0]
+			}
+		}
+		return true
+	})
+	return out
 }
 
 // c11RetryExcludes: (located, value, why-not-located)
@@ -208,7 +228,7 @@ func c11RetryExcludes(f *ast.File) (bool, bool, string) {
 		if !ok {
 			return true
 		}
-		if is, ok2 := c11ElectionArgOK(c, excl); is {
+		if is, ok2 := c11ElectionArgOK(c, excl, c11Locals(fd.Body)); is {
 			electSeen, electOK = true, ok2
 		}
 		if sel, ok := c.Fun.(*ast.SelectorExpr); ok {
@@ -253,7 +273,7 @@ func c11RetryExcludes(f *ast.File) (bool, bool, string) {
 			}
 			Walk(h.Body, func(n ast.Node) bool {
 				if c, ok := n.(*ast.CallExpr); ok {
-					if is, ok2 := c11ElectionArgOK(c, pname); is {
+					if is, ok2 := c11ElectionArgOK(c, pname, c11Locals(h.Body)); is {
 						electSeen, electOK = true, ok2
 					}
 				}
@@ -285,13 +305,32 @@ func c11RetryableGuard(f *ast.File) (bool, bool, string) {
 		})
 		return found
 	}
-	retryableCond := func(e ast.Expr) (neg bool, ok bool) {
-		if u, isU := e.(*ast.UnaryExpr); isU && u.Op.String() == "!" {
-			n, ok := retryableCondPos(u.X)
-			return !n, ok
+	locals := c11Locals(fd.Body)
+	pos := func(e ast.Expr) (bool, bool) {
+		if id, isID := e.(*ast.Ident); isID {
+			if r, ok := locals[id.Name]; ok {
+				return retryableCondPos(r)
+			}
 		}
 		return retryableCondPos(e)
 	}
+	retryableCond := func(e ast.Expr) (neg bool, ok bool) {
+		if p, isP := e.(*ast.ParenExpr); isP {
+			e = p.X
+		}
+		if u, isU := e.(*ast.UnaryExpr); isU && u.Op.String() == "!" {
+			n, ok := pos(u.X)
+			return !n, ok
+		}
+		return pos(e)
+	}
+	mentionsRetryable := false
+	Walk(fd.Body, func(n ast.Node) bool {
+		if c, ok := n.(*ast.CallExpr); ok && strings.HasSuffix(Src(c.Fun), ".Retryable") {
+			mentionsRetryable = true
+		}
+		return true
+	})
 	handleSeen := false
 	guarded := false
 	sawNegGuard := false
@@ -333,6 +372,10 @@ func c11RetryableGuard(f *ast.File) (bool, bool, string) {
 	}
 	if !handleSeen {
 		return false, false, "no call of handleError at the top level of Execute"
+	}
+	if !guarded && mentionsRetryable {
+		// Retryable() is consulted, but not in one of the two shapes understood here: do not guess
+		return false, false, "Execute consults Retryable() in a shape the translator does not understand"
 	}
 	return true, guarded, ""
 }
